@@ -132,7 +132,7 @@ def main(tier, replay=None):
     # compile only, full diagnostics
     import sem_common
     jp = os.path.join(d, "jobs.json")
-    json.dump({"threads": 14, "jobs": [{"id": os.path.basename(p), "path": p, "cfg": DEFAULT_CFG, "runs": [], "diag_limit": 4_000_000}
+    json.dump({"threads": __import__("lib").worker_threads(0.6), "jobs": [{"id": os.path.basename(p), "path": p, "cfg": DEFAULT_CFG, "runs": [], "diag_limit": 4_000_000}
                                        for p, _ in jobs_files]}, open(jp, "w"))
     from lib import BIN, run
     out = os.path.join(d, "real.ndjson")
